@@ -100,6 +100,15 @@ class Gen:
                 c = r.randrange(self.ncomp)
                 if r.random() < 0.5:
                     acts.append(['unreg', c])
+        # a handler that catches TimeoutError and immediately calls/waits again is outside the modelled
+        # programs (processTask wraps the new generator in a one-shot generator; see DESIGN C06)
+        fixed = []
+        for a in acts:
+            if fixed and fixed[-1][0] in ('call', 'wait') and fixed[-1][3] is not None and fixed[-1][4] \
+                    and a[0] in ('call', 'wait'):
+                fixed.append(['yld', None])
+            fixed.append(a)
+        acts = fixed
         # how the body ends
         if make_gen and not any(a[0] in ('yld', 'call', 'wait') for a in acts):
             acts.insert(r.randint(0, len(acts)), ['yld', r.choice([None, r.randint(1, 9)]) if 'values' in f else None])
